@@ -80,7 +80,7 @@ func defsC05(maxSize int) []c05Def {
 					opts = append(opts, ph.OptDef{Name: "zopt", Kind: ph.StrOpt, DefS: "ZD"}, ph.OptDef{Name: "zlist", Kind: ph.StrS, Min: 1, Max: 2})
 					for mode := 0; mode < 3; mode++ {
 						for _, ro := range []bool{false, true} {
-							d := &ph.Def{Mode: mode, RequireOrder: ro, Root: ph.CmdDef{Name: "prog", Opts: opts,
+							d := &ph.Def{Mode: mode, RequireOrder: ro, Help: "help", Root: ph.CmdDef{Name: "prog", Opts: opts,
 								Cmds: []*ph.CmdDef{{Name: "cmd", Opts: []ph.OptDef{{Name: "vz", Kind: ph.Bool}}},
 									{Name: "w", Unset: true, Opts: []ph.OptDef{{Name: "vew", Kind: ph.Bool}}}}}}
 							out = append(out, c05Def{d, names})
@@ -148,7 +148,7 @@ func init() {
 	parserJudges["C05"] = judgeC05
 	register(&Check{
 		ID:        "C05",
-		QuickSecs: 120, ThoroSecs: 900,
+		QuickSecs: 300, ThoroSecs: 900,
 		Rule: "input-space exploration over definitions: all subsets of size 2-4 of the name pool {v, ve, ver, verbose, vex, x, é, ê} x all partitions of the subset into options (names of one block are aliases) x option kind {bool, string} x 3 modes x require-order on/off, " +
 			"each queried with every prefix of every name plus non-matching texts, in long and short spelling, at the root and inside a command that inherits the options and adds one of its own, alone and after a token that sets another option; " +
 			"effect, CalledAs, ambiguity error text (sorted candidate list) and unknown-option error compared with the reference matcher; on ambiguity no option value may change; distinct_nontrivial = distinct in-domain cases",
@@ -179,7 +179,7 @@ func init() {
 						if isStr {
 							tok += "=val"
 						}
-						for ctx := 0; ctx < 9; ctx++ {
+						for ctx := 0; ctx < 10; ctx++ {
 							var argv []string
 							switch ctx {
 							case 0:
@@ -196,6 +196,8 @@ func init() {
 								argv = []string{"--zopt", tok}
 							case 7: // right behind a slice option that could still take a value
 								argv = []string{"--zlist", "x", tok}
+							case 9: // behind the help option: an ambiguous text is still rejected
+								argv = []string{"--help", tok}
 							case 8: // Bundling: behind a letter that no declared name starts with, in one token
 								if dash != "-" || cd.def.Mode != 1 || isStr {
 									continue
